@@ -301,7 +301,31 @@ pub fn run_random(rec: &mut Rec, seed: u64, run: u64, nops: usize) {
     rec.emit(json!({"ev": "reset", "suite": "incentive", "run": run, "seed": seed.to_string(), "ops": nops,
         "cfg": {"fee_asset": fee_asset, "fee": "1000"}, "obs": p.obs()}));
     let scale = *gen::pick(&mut r, &[1_000u128, 1_000_000_000, 1u128 << 64, 1u128 << 100]);
+    // every fourth run is a "claim campaign": two stakers, two flows of one asset (the second back-dated and short),
+    // then epoch after epoch with both stakers claiming, so that flows are claimed through to their end
+    let campaign = run % 4 == 3;
+    let camp_asset = *gen::pick(&mut r, &["uusdc", "rwd2"]);
+    let camp_dur = DURS[0];
     for step in 0..nops {
+        if campaign && step < nops {
+            let fee: u128 = 1000;
+            let fa = p.fee_asset.clone();
+            let flow_funds = |asset: &str, a: u128| -> Value { if asset == fa { json!([{"d": asset, "amt": s(a)}]) } else { json!([{"d": fa, "amt": s(fee)}, {"d": asset, "amt": s(a)}]) } };
+            let big = 100_000u128 + r.gen_range(0..50_000u128);
+            match step {
+                0 | 1 => { let a = 1000 + r.gen_range(0..1000u128); p.step(rec, run, step, "open", step, json!({"amt": s(a), "allow": s(a), "dur": camp_dur.to_string(), "recv": USERS[step]})); continue; }
+                2 => { p.step(rec, run, step, "openflow", 2, json!({"asset": camp_asset, "amt": s(big), "funds": flow_funds(camp_asset, big), "len": 30, "start": 0})); continue; }
+                3 | 4 | 5 => { p.step(rec, run, step, "newepoch", 0, json!({})); continue; }
+                6 => { p.step(rec, run, step, "claim", 0, json!({})); continue; }
+                7 => { let len = r.gen_range(4..10u64); let back = r.gen_range(1..4u64);
+                       p.step(rec, run, step, "openflow", 2, json!({"asset": camp_asset, "amt": s(big - 7), "funds": flow_funds(camp_asset, big - 7), "len": len, "start": back})); continue; }
+                _ if r.gen_range(0..10) < 8 => {
+                    match (step - 8) % 3 { 0 => p.step(rec, run, step, "newepoch", 0, json!({})), k => p.step(rec, run, step, "claim", k - 1, json!({})) };
+                    continue;
+                }
+                _ => {}
+            }
+        }
         let ui = r.gen_range(0..3usize);
         let mut dur = *gen::pick(&mut r, &DURS);
         let roll = r.gen_range(0..100);
